@@ -381,7 +381,9 @@ func bodyC06(s *Sim) {
 				continue
 			}
 			if letterOfPod(p) == "B" && p.DeletionTimestamp == nil && s.rngEnv.IntN(2) == 0 {
-				switch s.rngEnv.IntN(4) {
+				switch s.rngEnv.IntN(5) {
+				case 4:
+					s.Store.Remove(objKey{KPod, p.Namespace, p.Name}) // evicted and collected: its successor never restarted
 				case 0:
 					if len(p.Status.ContainerStatuses) > 0 {
 						s.kRestart(p, "Error")
@@ -828,7 +830,12 @@ func genC09Inject(r *rand.Rand, tier string, idx int) *World {
 	e.Strategy.MaxParallel = i32(pick(r, int32(1), 2, 5, 250, 1, 2, 5, 250, 0))
 	w.EDS = []*EDSDef{e}
 	w.Extra["requests"] = fmt.Sprint(5 + r.IntN(16))
-	w.Extra["update"] = pick(r, "0", "1", "2", "2", "3")
+	w.Extra["update"] = pick(r, "0", "1", "2", "2", "3", "4")
+	if w.Extra["update"] == "4" {
+		// a node the daemon does not target (stray pods there are clean-up work) and one that joins later
+		w.Nodes = append(w.Nodes, &NodeDef{Name: nodeName(n), Taints: []string{"dedicated:NoSchedule"}})
+		w.SpareNodes = append(w.SpareNodes, &NodeDef{Name: nodeName(n + 1)})
+	}
 	if w.Extra["update"] == "3" {
 		e.Strategy.Canary = &CanaryDef{Replicas: pick(r, "1", "2"), ValidationMode: "manual"}
 	}
@@ -865,6 +872,33 @@ func bodyC09Inject(s *Sim) {
 			s.userSetTemplate(def.NS, def.Name, l)
 			s.RunTask(CtrlEDS, key)
 			s.RunTask(CtrlEDS, key)
+		}
+		if i == reqs/2 && s.W.Extra["update"] == "4" {
+			// syncs whose only pod operation is the clean-up of a stray pod, then a node joins and
+			// the replica set is requested again at the same instant
+			e := s.Store.GetEDS(def.NS, def.Name)
+			var tn *corev1.Node
+			for _, n := range s.Store.Nodes() {
+				if len(n.Spec.Taints) > 0 {
+					tn = n
+				}
+			}
+			if a := s.Store.GetERS(def.NS, e.Status.ActiveReplicaSet); e != nil && a != nil && tn != nil {
+				rk := types.NamespacedName{Namespace: a.Namespace, Name: a.Name}
+				for k := 0; k < 3; k++ {
+					s.settleAll()
+					s.injectPod(a, tn, PodState{Kind: "ready"})
+					s.Advance(s.maxFrequency() + time.Second)
+					s.RunTask(CtrlERS, rk)
+				}
+				for _, nd := range s.W.SpareNodes {
+					if s.Store.GetNode(nd.Name) == nil {
+						_, _ = s.Store.CreateObj(nd.Object())
+					}
+				}
+				s.RunTask(CtrlERS, rk)
+				s.Stats.NonVacuous["C09.cleanup-only"]++
+			}
 		}
 		if i == reqs/2 && s.W.Extra["update"] == "3" {
 			// a canary whose replica set changes role right after one of its syncs: validated (or
